@@ -22,6 +22,25 @@ RULES_AUTO = '''<?xml version="1.0" encoding="UTF-8" standalone="no"?>
 </root>'''
 
 
+class ElectionHistory:
+    """Harness bookkeeping for the reference election rule: who was the agreed Master, which faults occurred."""
+
+    def __init__(self):
+        self.m0 = None
+        self.faults = []
+        self.spurious = False   # a live reachable peer was timed out (message delay): the rule is not judged
+
+    def key(self, c):
+        return ('eh', self.m0, tuple(self.faults), self.spurious)
+
+    def on_instance_state(self, w, o, peer_ident, old, new):
+        if new == 'FAILED':
+            p = w.idx_of[peer_ident]
+            if w.sups[p].alive and frozenset((o, p)) not in w.cut and not any(x[0] == 'restart' and x[1] == p
+                                                                               for x in self.faults):
+                self.spurious = True
+
+
 class Cluster(Driver):
     """cfg keys: n, options (dict), nicks, core, T (ticks per instance), F (fault budget),
     faults (list of fault kinds), rules ('auto' or None), requests (list of user RPC names),
@@ -63,6 +82,13 @@ class Cluster(Driver):
             # start from a non-initial state: a canonical fair run brings the cluster to OPERATION first
             w.round_robin(cfg['warm'], settle=self.settle)
         w.budget['Tmax'] = w.round + cfg['T']
+        # election history for the reference rule (C01 b): Master agreed before the disturbances, fault events
+        hist = ElectionHistory()
+        live = w.live()
+        ms = {master_of(w.sups[i]) for i in live}
+        if len(ms) == 1 and '' not in ms and all(s.fsm.state.name == 'OPERATION' for s in w.sups if s.alive):
+            hist.m0 = w.idx_of[next(iter(ms))]
+        w.monitors.append(hist)
         return w
 
     # -- environment menu --------------------------------------------------------------------
@@ -111,6 +137,10 @@ class Cluster(Driver):
     def step_check(self, w, ev, obs, cfg):
         if ev[0] in ('crash', 'isolate', 'stall'):
             w.budget['F'] -= 1
+        if ev[0] in ('crash', 'isolate', 'stall', 'restart', 'rejoin', 'resume', 'rpc', 'halt'):
+            for m in w.monitors:
+                if isinstance(m, ElectionHistory):
+                    m.faults.append(tuple(ev[:2]))
         if ev[0] == 'rpc':
             w.budget['R'] -= 1
         if ev[0] == 'restart':
@@ -218,6 +248,11 @@ class Cluster(Driver):
                 if master_of(w.sups[mi]) != m:
                     return {'clause': 'master-does-not-regard-itself', 'signature': 'C01:master-self-view',
                             'group': g, 'master': mi}
+                want = self.expected_master(w, cfg, g)
+                if want is not None and mi not in want:
+                    return {'clause': 'election-rule', 'signature': 'C01:election-rule', 'group': g,
+                            'elected': mi, 'expected': sorted(want),
+                            'history': [list(x) for x in self.history(w).faults], 'm0': self.history(w).m0}
             if 'C08' in self.judge:
                 vals = set(masters.values())
                 goal = {'OPERATION'}
@@ -237,6 +272,57 @@ class Cluster(Driver):
                     if sm['starting_jobs'] or sm['stopping_jobs']:
                         return {'clause': 'jobs-pending', 'signature': 'C08:jobs-pending', 'group': g,
                                 'observer': i, 'starting': sm['starting_jobs'], 'stopping': sm['stopping_jobs']}
+        return None
+
+    @staticmethod
+    def history(w):
+        return next(m for m in w.monitors if isinstance(m, ElectionHistory))
+
+    @staticmethod
+    def rule(w, members):
+        """Documented rule: a core_identifiers member if any, else the lowest nick identifier."""
+        sc = w.scenario
+        nick = lambda i: sc['nicks'][i] or w.idents[i]
+        core = [i for i in members if nick(i) in sc['core'] or w.idents[i] in sc['core']]
+        pool = core or list(members)
+        return min(pool, key=nick)
+
+    def expected_master(self, w, cfg, g):
+        """Set of acceptable Masters for group g per the reference election rule, or None (not judged).
+        Only single-fault histories from an agreed situation have an unambiguous answer."""
+        h = self.history(w)
+        if h.m0 is None or h.spurious:
+            return None
+        m0, f = h.m0, h.faults
+        kinds = [x[0] for x in f]
+        if set(g) != set(w.live()):
+            # the cluster is split for good (partition still in force, or fencing): each side on its own
+            if kinds and kinds[0] != 'isolate':
+                return None
+            return {m0} if m0 in g else {self.rule(w, g)}
+        if not f:
+            return {m0}
+        if kinds == ['crash']:
+            j = f[0][1]
+            return {m0} if j != m0 else {self.rule(w, g)}
+        if kinds == ['crash', 'restart'] and f[0][1] == f[1][1]:
+            j = f[0][1]
+            if j != m0:
+                return {m0}
+            others = [i for i in g if i != j]
+            return {m0, self.rule(w, others)} if others else {m0}
+        if kinds == ['restart']:     # late join: the running Master is kept
+            return {m0}
+        if kinds == ['isolate']:
+            j = f[0][1]
+            if g == [j]:
+                return {j}
+            return {m0} if j != m0 else {self.rule(w, g)}
+        if kinds == ['isolate', 'rejoin'] and f[0][1] == f[1][1]:
+            j = f[0][1]
+            others = [i for i in g if i != j]
+            a = m0 if j != m0 else (self.rule(w, others) if others else j)
+            return {m0, self.rule(w, {a, j})}
         return None
 
     def _group_can_sync(self, w, cfg, g):
